@@ -37,6 +37,8 @@ from vlib.codec import enc, show
 from vlib.run import Distinct, Run, Samples
 
 TAKE = 64
+STRESS_TIMEOUT = 420     # s per helper invocation; only ever yields "inconclusive"
+TSAN_TIMEOUT = 600
 SCRATCH = None
 
 
@@ -235,17 +237,20 @@ def stress_one(run, bins, progs, c, chunk, ci, acc, per_t):
     b, t, r, j, ls, cd, sh = c
     cfg = {"threads": t, "reps": r, "seed": run.seed * 1000 + chunk * 37 + ci, "jitter": j, "take": TAKE,
            "lockstep": ls, "compile_during": cd, "share_values": sh, "build": b}
+    if run.violations:
+        acc["skipped_after_first_violation"] = acc.get("skipped_after_first_violation", 0) + 1
+        return
     path = write_request(progs, cfg, "stress-%d-%d.json" % (chunk, ci))
-    res = run_helper([bins[b], "threads", path], timeout=900)
+    res = run_helper([bins[b], "threads", path], timeout=STRESS_TIMEOUT)
     if res["status"] == "died" and res["rc"] in (-signal.SIGSEGV, -signal.SIGABRT, -signal.SIGBUS, -signal.SIGILL):
         # A crash of the concurrent phase is a refutation only if it is reproducible and the
         # single-threaded execution of the very same request is fine (then it is not resource
         # exhaustion of an individual run: worker threads have a *larger* stack than the main
         # thread that computed the isolated baseline).
-        again = run_helper([bins[b], "threads", path], timeout=900)
+        again = run_helper([bins[b], "threads", path], timeout=STRESS_TIMEOUT)
         cfg1 = dict(cfg, threads=1, compile_during=False)
         path1 = write_request(progs, cfg1, "stress-%d-%d-single.json" % (chunk, ci))
-        single = run_helper([bins[b], "threads", path1], timeout=900)
+        single = run_helper([bins[b], "threads", path1], timeout=STRESS_TIMEOUT)
         if again["status"] == "died" and single["status"] == "ok" and single["rc"] == 0 and summaries(single["out"]):
             run.violation("crash-under-concurrency:%s" % signame(res["rc"]),
                           {"detector": "stress", "kind": "crash", "cfg": cfg, "signal": signame(res["rc"]),
@@ -386,10 +391,13 @@ def detector_tsan(run, progs, info, built):
     reports = []
     info["invocations"] = 0
     for ci, cfg in enumerate(cfgs):
+        if reports:
+            info["skipped_after_first_report"] = info.get("skipped_after_first_report", 0) + 1
+            continue
         cfg = dict(cfg, seed=run.seed * 1000 + 500 + ci, take=TAKE, build="tsan")
         req = write_request(progs, cfg, "tsan-%d.json" % ci)
         logp = os.path.join(scratch(), "tsanlog-%d" % ci)
-        res = run_helper([path, "threads", req], timeout=1500, env={
+        res = run_helper([path, "threads", req], timeout=TSAN_TIMEOUT, env={
             "TSAN_OPTIONS": "halt_on_error=0 exitcode=66 report_signal_unsafe=0 history_size=4 second_deadlock_stack=1 log_path=" + logp})
         text = ""
         for fn in sorted(os.listdir(scratch())):
@@ -402,6 +410,7 @@ def detector_tsan(run, progs, info, built):
         ss = summaries(res["out"])
         if res["status"] == "timeout":
             run.inconc("tsan:timeout")
+            run.notes.append("tsan invocation %d timed out after %d s (%d report blocks in its log)" % (ci, TSAN_TIMEOUT, len(blocks)))
         elif res["status"] == "died" and not blocks:
             run.inconc("tsan:helper-died:" + signame(res["rc"]))
         elif res["rc"] not in (0, 66) and not blocks:
